@@ -33,6 +33,22 @@ QUOTED_DIGIT_NAMES = [
 ]
 
 
+# quoted strings that are not names — operand-bundle tags, section / partition / gc names, string attributes, inline-asm text, module-level asm,
+# source_filename, target strings — holding a control byte, a double quote, a backslash and a non-UTF-8 byte: printed with LLVM's `\XX` escapes, one step
+_ESC = 'a\\01b\\22c\\5Cd\\FFe'
+ESCAPED_STRINGS = [
+    'declare void @g()\n\ndefine void @f() {\n\tcall void @g() [ "%s"(), "t"(i32 1) ]\n\tret void\n}\n' % _ESC,
+    '@g = global i32 0, section "%s", partition "%s"\n' % (_ESC, _ESC),
+    'define void @f() section "%s" gc "%s" {\n\tret void\n}\n' % (_ESC, _ESC),
+    'declare void @f() "%s"="%s" "%s"\n' % (_ESC, _ESC, _ESC),
+    'define void @f() {\n\tcall void asm sideeffect "%s", "%s"()\n\tret void\n}\n' % (_ESC, "~{memory}"),
+    'source_filename = "%s"\nmodule asm "%s"\n' % (_ESC, _ESC),
+    'target datalayout = "%s"\ntarget triple = "%s"\n' % (_ESC, _ESC),
+    '@s = constant [5 x i8] c"%s"\n' % 'a\\01\\22\\5C\\FF',
+    '!0 = !{!"%s"}\n' % _ESC,
+]
+
+
 def respell(rng, text):
     """non-canonical spellings of the same module"""
     import re
@@ -96,7 +112,7 @@ def gen(tier, rng, harness=None):
             lines += ["core2.reparse " + a, "!core2.rt " + a]
     # inputs the parser accepts although LLVM would not: element annotations of an aggregate constant that differ from the element type of the aggregate
     # (they are kept as written); the printed text must still be a fixpoint
-    for t in ILL_TYPED_ACCEPTED + QUOTED_DIGIT_NAMES:
+    for t in ILL_TYPED_ACCEPTED + QUOTED_DIGIT_NAMES + ESCAPED_STRINGS:
         lines.append("!mod.stable - %s" % hx(t))
     from . import metagen
     lines += metagen.print_lines(rng, n)
